@@ -5,6 +5,7 @@ import ast
 
 from .. import logic
 from ..cfg import CFG
+from ..core import copy_ast as _copy_ast
 from ..core import (AnalysisError, DefRef, NotConst, Ref, call_name, calls_in, dotted, enclosing_conditions, enclosing_conditions_expanded, expand_aliases,
                     func_params, get_kw, norm, qualname_of, walk_no_nested)
 
@@ -167,8 +168,8 @@ def expand_at(cfg, e, node_id, aliases):
     if repl:
         class _R(ast.NodeTransformer):
             def visit_Name(self, n):
-                return _copy.deepcopy(repl[n.id]) if isinstance(n.ctx, ast.Load) and n.id in repl else n
-        e = _R().visit(_copy.deepcopy(e))
+                return _copy_ast(repl[n.id]) if isinstance(n.ctx, ast.Load) and n.id in repl else n
+        e = _R().visit(_copy_ast(e))
     return expand_aliases(e, aliases)
 
 
